@@ -112,6 +112,13 @@ class STIXdatetime(dt.datetime):
     def __repr__(self):
         return "'%s'" % format_datetime(self)
 
+    def __deepcopy__(self, memo):
+        # datetime's default reconstruction would drop the precision metadata
+        return STIXdatetime(
+            self, precision=self.precision,
+            precision_constraint=self.precision_constraint,
+        )
+
 
 def deduplicate(stix_obj_list):
     """Deduplicate a list of STIX objects to a unique set.
